@@ -413,7 +413,7 @@ pub fn huge_case() -> TruthCase {
 
 pub const RULE: &str = "cases = C01's PCM x options space crossed with seek-table policy (off / every n frames / every n seconds / default), \
 total declared or discovered at finalize, padding absent / too small by 1-3 / exact / ample by 1-2 / arbitrary, stream starting after a \
-junk prefix, extra metadata blocks, a sink that accepts every write in full or only up to n bytes per call; long streams (66 000 - 200 000 samples, blocks up to 16384) with seconds-based tables; plus one stream of 932 068 frames (more than a seek table can hold) with one point per frame and an \
+junk prefix, extra metadata blocks, a sink that accepts every write in full or only up to n bytes per call; long streams (66 000 - 200 000 samples, blocks up to 16384) with seconds-based tables; plus streams of 932 068 / 932 100 frames (more than a seek table can hold) with one point per frame / per two frames and an \
 undeclared total. Oracle (independent parser over a recording writer): STREAMINFO total/channels/rate/depth/block size/min-max frame \
 size/MD5 are true; every defined seek point names first sample, offset and length of a real frame, ascending, placeholders last; every write \
 issued during finalize either stays inside the metadata region or appends at the end of the audio (whatever seeks are used), the frame bytes \
@@ -438,7 +438,11 @@ pub fn run(ctx: &Ctx) {
     };
     ctx.search(&long, n, long_truth_strategy);
     let huge = Truth { name: "more-frames-than-seekpoints" };
-    ctx.run_cases(&huge, &[huge_case()]);
+    // and with a decimating policy: more frames than a table can hold, one point per 2 frames
+    let mut huge2 = huge_case();
+    huge2.enc.opts.seek = Seek::Frames(2);
+    huge2.enc.recipe.frames = 932_100 * 16;
+    ctx.run_cases(&huge, &[huge_case(), huge2]);
     let _: Option<Pcm> = None;
 }
 
